@@ -276,20 +276,36 @@ def form_extent(ctx, mp):
         ("a negative literal", [P("-"), T("Literal")]),
         ("an unquoted identifier", [P(","), T("Ident")]), ("an unquoted group", [P(","), T("Group")]),
         ("the symbol +", [P("+")]), ("the symbol <=", [P("<", "Joint"), P("=")]), ("the symbol ...", [P(".", "Joint"), P(".", "Joint"), P(".")]),
+        ("the symbol -", [P("-")]),
     ]
+    # what each form is read as (the kinds of the macro's own value type), whatever the text of an identifier or literal
+    kinds_of = {"an identifier": {"Symbol"}, "a literal": {"Literal"}, "#:name": {"Keyword"}, '#:"name"': {"Keyword"},
+                ":name": {"Keyword"}, ':"name"': {"Keyword"}, "a negative literal": {"Negated"},
+                "an unquoted identifier": {"Unquoted"}, "an unquoted group": {"Unquoted"}, "the symbol +": {"Symbol"},
+                "the symbol <=": {"Symbol"}, "the symbol ...": {"Symbol"}, "the symbol -": {"Symbol"},
+                '#"symbol"': {"Symbol"}, "#ident": {"Bool", "Nil"}}
     followers = [("nothing", []), ("an identifier", [T("Ident")]), ("a literal", [T("Literal")]), ("a group", [T("Group")]),
                  ("`.` and an identifier", [P("."), T("Ident")]), ("`-` and an identifier", [P("-"), T("Ident")]),
                  ("`-` and a literal", [P("-"), T("Literal")]), ("`+`", [P("+")]), ("`@` and an identifier", [P("@"), T("Ident")]),
                  ("`:` and an identifier", [P(":"), T("Ident")]), ("an unquote", [P(","), T("Ident")])]
     n = und = 0
+    value_kinds = {v["name"] for v in (mp.mac.adts.get("value::Value") or {"variants": []})["variants"]}
     for fname, form in forms:
         for gname, rest in followers:
+            if fname == "the symbol -" and rest and rest[0].vname == "Literal":
+                continue        # `-` before a literal is the sign of that literal (the form "a negative literal")
             outs = mp.parse(form + rest)
             n += 1
             want = len(form)
             what = "%s followed by %s" % (fname, gname)
             got = {at for k, at in outs if k != "rejected"}
-            if got == {want}:
+            kinds = {k for k, at in outs if k != "rejected"}
+            wk = kinds_of.get(fname)
+            if got == {want} and wk and wk <= value_kinds and kinds and not kinds <= wk and not any(k.startswith("?") for k in kinds):
+                r.violation("lexpr_macros::" + pf.path, "kind:%s:%s" % (fname, gname),
+                            "sexp! reads %s as %s; the documented reading is %s, whatever the text of the token" % (
+                                what, "/".join(sorted(kinds)), "/".join(sorted(wk))), pf.loc())
+            elif got == {want}:
                 r.ok("%s: cursor behind the form" % what, pf)
             elif not got or any(not isinstance(x, int) for x in got):
                 und += 1
